@@ -1,6 +1,6 @@
 (* C04 - each computation runs at most once, and only on demand.  Statements only. *)
 From Coq Require Import String Ascii List Bool Arith ZArith.
-From TC Require Import PyStr Value Dict Repr Param Config Key Chain World Eval History EvalProofs HistoryProofs.
+From TC Require Import OnceProofs PyStr Value Dict Repr Param Config Key Chain World Eval History EvalProofs HistoryProofs.
 Import ListNotations.
 
 (* a result held by the task object is served: nothing runs, nothing changes *)
@@ -52,3 +52,49 @@ Theorem C04_has_data_keeps_files : forall H wd run h c n h' out p e,
   dget p (w_store (h_world h)) = Some e -> dget p (w_store (h_world h')) = Some e.
 Proof. exact has_data_keeps_files. Qed.
 Print Assumptions C04_has_data_keeps_files.
+
+(* Over a whole history: value requests on arbitrary task objects in any order, with restarts (everything in
+   memory forgotten) in between, starting from ANY content of the data directory and an empty run log, all
+   requests succeeding, nothing forced: the run of a persisted task has executed at most once per storage
+   location, and a location that was computed is stored (so that every later request for it is a load,
+   C04_stored_is_loaded).  The hypotheses describe the shape of a built chain: inputs are strictly lower
+   (mu: e.g. the depth of the computation - C08 gives acyclicity, C03 that one location is one computation,
+   hence one depth), one location has one data class, and log/record files are nobody's result file.
+   The object table is fixed (all chains built before the requests). *)
+Theorem C04_at_most_once_per_location : forall classes run objs mu,
+  (forall id o k j, nth_error objs id = Some o -> In (k, inl j) (o_inputs o) -> mu j < mu id) ->
+  (forall i oi ti j oj tj, IsObj classes objs i oi ti -> IsObj classes objs j oj tj ->
+                           entry_of ti oi = entry_of tj oj -> mu i = mu j) ->
+  (forall i oi ti j oj tj, IsObj classes objs i oi ti -> IsObj classes objs j oj tj ->
+                           entry_of ti oi = entry_of tj oj -> c_data ti = c_data tj) ->
+  (forall i oi ti j oj tj, IsObj classes objs i oi ti -> IsObj classes objs j oj tj ->
+                           log_path ti oi <> result_path tj oj /\ info_path ti oi <> result_path tj oj) ->
+  forall f ops w w',
+  Quiet objs w -> w_runlog w = [] -> run_hist classes run f w ops = Some w' ->
+  forall id o tc, IsObj classes objs id o tc -> persisting (c_data tc) = true ->
+                  cnt (entry_of tc o) (w_runlog w') <= 1.
+Proof. exact at_most_once_per_location. Qed.
+Print Assumptions C04_at_most_once_per_location.
+
+Theorem C04_computed_is_stored : forall classes run objs mu,
+  (forall id o k j, nth_error objs id = Some o -> In (k, inl j) (o_inputs o) -> mu j < mu id) ->
+  (forall i oi ti j oj tj, IsObj classes objs i oi ti -> IsObj classes objs j oj tj ->
+                           entry_of ti oi = entry_of tj oj -> mu i = mu j) ->
+  (forall i oi ti j oj tj, IsObj classes objs i oi ti -> IsObj classes objs j oj tj ->
+                           entry_of ti oi = entry_of tj oj -> c_data ti = c_data tj) ->
+  (forall i oi ti j oj tj, IsObj classes objs i oi ti -> IsObj classes objs j oj tj ->
+                           log_path ti oi <> result_path tj oj /\ info_path ti oi <> result_path tj oj) ->
+  forall f ops w w',
+  Quiet objs w -> w_runlog w = [] -> run_hist classes run f w ops = Some w' ->
+  forall id o tc, IsObj classes objs id o tc -> persisting (c_data tc) = true ->
+                  cnt (entry_of tc o) (w_runlog w') = 1 -> Stored (w_store w') tc o.
+Proof. exact computed_is_stored. Qed.
+Print Assumptions C04_computed_is_stored.
+
+(* the premises are satisfiable: a two-task chain, the input named in the signature of run; six requests and
+   two restarts run each location once *)
+Example C04_history_nonvacuous :
+  exists w', run_hist OnceExample.classes OnceExample.run0 5 OnceExample.w0
+                      [HReq 1; HForget; HReq 1; HReq 0; HForget; HReq 0] = Some w' /\
+             w_runlog w' = [(lit "a", lit "k0"); (lit "b", lit "k1")].
+Proof. exact OnceExample.history_runs_each_location_once. Qed.
